@@ -190,6 +190,27 @@ func init() {
 				cse.TimeoutMS = 60000
 				cs = append(cs, cse)
 			}
+			// a plan cut by its max-duration shortly after a stage change: iterations of the stage before are still
+			// running when triggering ends (they take 170 ms), and the run's end waits for them too
+			nsp := 6
+			if tier == "thorough" {
+				nsp = 40
+			}
+			for i := 0; i < nsp; i++ {
+				c := pick(r, 4, 8, 8, 16)
+				p := c06Params{Ending: "duration", Spec: engine.FileSpanSpec(c, 0)}
+				cut := []int{320, 470, 620, 640, 660}[r.IntN(5)]
+				p.Spec.YAML = strings.Replace(p.Spec.YAML, "max-duration: 60s", fmt.Sprintf("max-duration: %dms", cut), 1)
+				p.Spec.MaxDurationMS = cut
+				p.SetupCleanups = []int{cfPass, cfPass}
+				p.SetupFaultPos = 2
+				p.Desc = fmt.Sprintf("mode=filespan c=%d ending=duration cut=%dms (just after a stage change) setupCleanups=[ok,ok]", c, cut)
+				cse := core.MkCase("C06", "run", 5000+i, seed, p)
+				cse.Race = i%2 == 0
+				cse.Procs = pick(r, 2, 16)
+				cse.TimeoutMS = 60000
+				cs = append(cs, cse)
+			}
 			return cs
 		},
 		Kinds:  map[string]core.RunFunc{"run": c06Run},
@@ -224,7 +245,9 @@ func c06Once(c *core.Case, o *core.Outcome, p c06Params, reg *scenarios.Scenario
 	release := func() { gateOnce.Do(func() { close(gate) }) }
 	defer release()
 	var inflight atomic.Int64
+	var runStart time.Time
 	scenario := func(t *f1testing.T) f1testing.RunFn {
+		runStart = time.Now()
 		l.Add("setup.start", engine.HandleID(t), "", 0, "")
 		defer l.Add("setup.end", engine.HandleID(t), "", 0, "")
 		reg := func(i int) {
@@ -280,7 +303,15 @@ func c06Once(c *core.Case, o *core.Outcome, p c06Params, reg *scenarios.Scenario
 			if p.Ending == "timeout" || (p.Ending == "longrun" && n%3 == 0) {
 				<-gate
 			}
-			if strings.Contains(p.Desc, "mode=filespan") {
+			if strings.Contains(p.Desc, "cut=") {
+				// iterations begun before the last stage change are the long ones: those of the final stage are over
+				// long before them
+				if change := time.Duration(p.Spec.MaxDurationMS/150*150) * time.Millisecond; time.Since(runStart) < change && n%3 == 0 {
+					time.Sleep(400 * time.Millisecond)
+				} else {
+					time.Sleep(2 * time.Millisecond)
+				}
+			} else if strings.Contains(p.Desc, "mode=filespan") {
 				engine.SpanSleep(n)
 			}
 			if p.CancelAt != 0 && n == p.CancelAt {
